@@ -267,15 +267,38 @@ func (g *FnGen) lookupLocal(name string, at *ssa.BasicBlock, phiVals map[*ssa.Ph
 }
 
 func (g *FnGen) baseEnv() *Env {
-	e := &Env{g: g, vars: map[string]Val{}, cur: g.cur, old: g.init, pkg: g.fn.Pkg.Pkg, pcs: []*PkgContracts{g.pc}}
+	e := &Env{g: g, vars: map[string]Val{}, cur: g.cur, old: g.init, pkg: g.fnTypesPkg(), pcs: []*PkgContracts{g.pc}}
 	for k, v := range g.params {
 		e.vars[k] = v
+	}
+	// captured variables are addresses: contracts name the captured value
+	for _, fv := range g.fn.FreeVars {
+		if pv, ok := g.vals[fv]; ok {
+			if pt, ok := fv.Type().(*types.Pointer); ok {
+				st := g.cur
+				e.vars[fv.Name()] = Val{T: g.load(st, g.addrOf(pv)), S: g.sortOf(pt.Elem()), GT: pt.Elem()}
+			}
+		}
 	}
 	return e
 }
 
+func (g *FnGen) fnTypesPkg() *types.Package {
+	f := g.fn
+	for f != nil {
+		if f.Pkg != nil {
+			return f.Pkg.Pkg
+		}
+		f = f.Parent()
+	}
+	return nil
+}
+
 func (g *FnGen) entryEnv() *Env {
+	save := g.cur
+	g.cur = g.init
 	e := g.baseEnv()
+	g.cur = save
 	e.cur = g.init
 	return e
 }
@@ -297,7 +320,7 @@ func (g *FnGen) run() {
 	g.cur = g.init.clone()
 	g.curR = "true"
 	// ghost variables of all loaded contract files
-	for _, pc := range g.prog.contracts {
+	for _, pc := range g.prog.sortedContracts() {
 		for _, gv := range pc.Ghosts {
 			env := &Env{g: g, pkg: g.prog.typesPkg(pc.PkgPath)}
 			t := env.resolveType(gv.Type)
@@ -332,6 +355,7 @@ func (g *FnGen) run() {
 	for _, fv := range fn.FreeVars {
 		// a free variable is the address of the captured variable
 		bind(fv.Name(), fv)
+		g.assume(fmt.Sprintf("(> %s 0)", g.vals[fv].T))
 	}
 	// global axioms of the package
 	g.emitAxioms()
@@ -360,7 +384,7 @@ func (g *FnGen) run() {
 }
 
 func (g *FnGen) emitAxioms() {
-	for _, pc := range g.prog.contracts {
+	for _, pc := range g.prog.sortedContracts() {
 		for _, ax := range pc.Axioms {
 			if ax.Mode != "" && ax.Mode != g.mode {
 				continue
@@ -390,8 +414,7 @@ func (g *FnGen) finishTags() {
 	// facts for interface-to-interface assertions: which known concrete tags implement which interface
 	for _, ip := range g.implPreds {
 		it, _ := ip.iface.Underlying().(*types.Interface)
-		for k, id := range g.tagIDs {
-			_ = k
+		for id := 1; id <= len(g.tagIDs); id++ {
 			t := g.tagTypes[id]
 			if t == nil || it == nil {
 				continue
@@ -417,6 +440,7 @@ func (g *FnGen) processBlocks(order []*ssa.BasicBlock, only map[*ssa.BasicBlock]
 		if !g.enterBlock(b, only) {
 			continue
 		}
+		g.curBlock = b
 		for _, ins := range b.Instrs {
 			g.instr(ins)
 		}
@@ -670,13 +694,23 @@ func (g *FnGen) loopHeader(li *loopInfo, entryPhi map[*ssa.Phi]Val) {
 		g.epochAllocLo[e] = append(g.epochAllocLo[e], old)
 		g.cur = &State{h: map[string]string{}, epoch: e}
 	} else {
+		a0 := g.heapGet(g.init, "$alloc", "Int")
 		for _, f := range mod {
 			old := g.heapGet(g.cur, f, g.famSort[f])
 			n := g.heapNew(f)
 			g.cur.h[f] = n
 			if f == "$alloc" {
 				g.assume(fmt.Sprintf("(>= %s %s)", n, old))
+				continue
 			}
+			if strings.HasPrefix(f, "Visited_") || strings.HasPrefix(f, "Ghost_") {
+				continue
+			}
+			// loop frame: objects that existed at function entry and are not named in the loop's
+			// assigns clause keep their contents (every write in the loop carries a frame/loop obligation)
+			fr := g.loopFrameCond(li, f, "lf!r")
+			g.assume(fmt.Sprintf("(forall ((lf!r Int)) (! (=> (and (< lf!r %s) (not %s)) (= (select %s lf!r) (select %s lf!r))) :pattern ((select %s lf!r))))",
+				a0, fr, n, old, n))
 		}
 	}
 	phiVals := map[*ssa.Phi]Val{}
@@ -695,6 +729,77 @@ func (g *FnGen) loopHeader(li *loopInfo, entryPhi map[*ssa.Phi]Val) {
 	}
 	for _, t := range g.implicitRangeInv(li, phiVals) {
 		g.assumeHere(t)
+	}
+}
+
+// loopFrameCond: condition under which ref (of family fam) is named by the loop's assigns clause.
+func (g *FnGen) loopFrameCond(li *loopInfo, fam, ref string) string {
+	alts := []string{"false"}
+	if li.spec == nil {
+		return "false"
+	}
+	env := g.localEnv(li.header, nil)
+	for _, c := range li.spec.Assigns {
+		switch l := c.E.(type) {
+		case *ESel:
+			x := env.tr(l.X)
+			if p, ok := typeUnder(x.GT).(*types.Pointer); ok {
+				if st, ok := p.Elem().Underlying().(*types.Struct); ok {
+					for i := 0; i < st.NumFields(); i++ {
+						if st.Field(i).Name() == l.Name {
+							if f, _, _ := g.fieldFam(p.Elem(), i); f == fam {
+								alts = append(alts, fmt.Sprintf("(= %s %s)", ref, x.T))
+							}
+						}
+					}
+				}
+			}
+		default:
+			v := env.tr(c.E)
+			switch u := typeUnder(v.GT).(type) {
+			case *types.Slice:
+				if f, _ := g.elemFam(u.Elem()); f == fam {
+					alts = append(alts, fmt.Sprintf("(= %s (s-ref %s))", ref, v.T))
+				}
+			case *types.Map:
+				pf, _, vf, _ := g.mapFams2(u)
+				lf, _ := g.mapLenFam(u)
+				if fam == pf || fam == vf || fam == lf {
+					alts = append(alts, fmt.Sprintf("(= %s %s)", ref, v.T))
+				}
+			default:
+				if id, ok := c.E.(*EIdent); ok && env.pkg != nil {
+					if o := env.pkg.Scope().Lookup(id.Name); o != nil {
+						if vv, ok := o.(*types.Var); ok && "Glob_"+sanitize(vv.Pkg().Name()+"."+vv.Name()) == fam {
+							alts = append(alts, "true")
+						}
+					}
+				}
+			}
+		}
+	}
+	if len(alts) == 1 {
+		return "false"
+	}
+	return "(or " + strings.Join(alts, " ") + ")"
+}
+
+// loopFrameCheck: a write to (fam, ref) inside loops must hit an object allocated by this function
+// or one named in the loops' assigns clauses.
+func (g *FnGen) loopFrameCheck(fam, ref string, pos token.Pos) {
+	if g.dry || g.curBlock == nil || strings.HasPrefix(ref, "ref!") {
+		return
+	}
+	if strings.HasPrefix(fam, "Visited_") || strings.HasPrefix(fam, "Ghost_") || fam == "$alloc" {
+		return
+	}
+	a0 := g.heapGet(g.init, "$alloc", "Int")
+	for _, li := range g.loops {
+		if !li.blocks[g.curBlock] {
+			continue
+		}
+		goal := fmt.Sprintf("(or (>= %s %s) %s)", ref, a0, g.loopFrameCond(li, fam, ref))
+		g.oblige("frame", g.ordName(fmt.Sprintf("frame/loop%d", li.ord)), goal, "write inside the loop touches only objects allocated by this function or named in the loop's assigns clause", pos)
 	}
 }
 
